@@ -47,6 +47,7 @@ struct EnvState {
     std::vector<BufReg> owned_bufs;      // preempt mode: caller buffers with the owning task in .id
     u64 shared_stores = 0;
     u64 mon_accesses = 0;
+    u64 under_lock_accesses = 0;
     u64 seam_count[EV_NKINDS] = {0};
     const u8* watch_p = nullptr; size_t watch_n = 0; u64 watch_hits = 0; bool watch_armed = false;   // caller's key buffer during polyseed_keygen
     int task_blk_seq[MAXT + 1] = {0};
